@@ -11,7 +11,7 @@
 
    A segment is (id, full size, live size); sizes are Go int64 modelled as Z, the two int64
    additions of the planner are written with wrap64.  The score function (Options.ScoreSegments,
-   default mergeplan.ScoreSegments: float64 with math.Pow) is a PARAMETER `score : list seg -> Z`:
+   default mergeplan.ScoreSegments: float64 with math.Pow) is an argument `score : list seg -> Z`:
    any key whose `<` is the order used at merge_plan.go:205.  removeSegments compares interface
    values (pointer identity); the model compares ids, the same thing when ids are distinct (the
    Segment interface documents the id as unique). *)
